@@ -27,6 +27,9 @@ def catalogue():
         'aarr': [1, 2] * u.deg, 'a30am': 1800 * u.arcmin, 'q180as': 180 * u.arcsec,
         'q1as': 1 * u.arcsec, 'q3am': 3 * u.arcmin, 'q2deg': 2 * u.deg, 'qinf': float('inf') * u.deg,
         'qnan': float('nan') * u.deg,
+        # one-element arrays are not scalars
+        'arr1': np.array([2.0]), 'list1': [2.0], 'narr1': np.array([5]), 'parr1': PixCoord([1.0], [2.0]),
+        'sarr1': SkyCoord([10.0], [20.0], unit='deg'), 'aarr1': [30.0] * u.deg, 'aAngle1': Angle([45.0], 'deg'), 'qarr1': [2.0] * u.deg,
         'regP1': CirclePixelRegion(PixCoord(0, 0), 1.0), 'regP2': RectanglePixelRegion(PixCoord(1, 1), 2, 3),
         'regS1': CircleSkyRegion(sA, 1 * u.arcsec), 'regS2': RectangleSkyRegion(sB, 1 * u.deg, 2 * u.deg),
         'tHello': 'hello', 'tEmpty': '',
